@@ -182,13 +182,24 @@ fn gen(case_seed: u64, _case: u64, tier: Tier, id: &str, focus: Focus) -> Plan {
 			twin: None,
 		}));
 	}
+	// the flush of the memtable a commit has just rotated away, placed between that rotation and
+	// the commit's retry on the fresh memtable (and right at the ArenaFull): the commit's log
+	// record is in the old segment and nowhere else yet
+	let mut windows = Vec::new();
+	if rng.chance(1, 3) {
+		for label in ["apply.post_rotate", "apply.arena_full"] {
+			if rng.chance(2, 3) {
+				windows.push(Window { label: label.into(), nth: rng.range(1, 3) as u32, steps: vec![if rng.chance(1, 2) { Step::FlushOne } else { Step::FlushAll }] });
+			}
+		}
+	}
 	Plan {
 		check: id.to_string(),
 		case_seed,
 		opts,
 		keys,
 		steps,
-		windows: vec![],
+		windows,
 		async_yields: false,
 		gate_tasks: gated,
 		faults: vec![],
